@@ -60,7 +60,8 @@ let () =
            after everything written before it has been synced (checked by the extracted barrier_ok) *)
         let nosync = (match Sexp.field "nosync" items with Some [b] -> bool_of_sx b | _ -> true) in
         (match Sexp.field "optrace" items with
-         | Some fs when not nosync ->
+         | Some fs when not nosync && not (match Sexp.field "mixed" items with Some [b] -> bool_of_sx b | _ -> false) ->
+             (* (a mixed workload's NoSync phase writes footers without the barrier, as it may) *)
              List.iter (function
                  | Sexp.L (Sexp.A "file" :: _ :: ops) ->
                      let tr = List.map (function
@@ -68,12 +69,35 @@ let () =
                      if not (barrier_ok tr) then add "model:write-barrier"
                  | _ -> ()) fs
          | _ -> ());
-        if opened = "panic" then add "spec:open-panic"
+        (* the directory-level discipline the several-files theorem assumes (CrashFiles.files_ok, extracted):
+           new files get the highest number, no footer below a newer file that holds one, the file holding
+           the newest durable footer is never unlinked *)
+        let getb name = (match Sexp.field name items with Some [b] -> bool_of_sx b | _ -> false) in
+        let optout = getb "syncoptout" in
+        (* a crash in the NoSync phase of a mixed workload that wrote back SOME of the un-synced pages:
+           a NoSync round's footer is not protected by a barrier (known finding F45) *)
+        let partialwb = getb "partialwb" in
+        let sfx k = if partialwb then k ^ "-nosync-partial-writeback" else if optout then k ^ "-sync-opted-out" else k in
+        (match Sexp.field "gtrace" items with
+         | Some evs ->
+             let rec cfn n = if n <= 0 then Crashfiles.O else Crashfiles.S (cfn (n - 1)) in
+             let tr = List.filter_map (function
+                 | Sexp.L [Sexp.A k; n] ->
+                     let f = cfn (int_of_sx n) in
+                     (match k with
+                      | "c" -> Some (Crashfiles.FCreate f) | "f" -> Some (Crashfiles.FFooter f)
+                      | "s" -> Some (Crashfiles.FSync f) | "u" -> Some (Crashfiles.FUnlink f) | _ -> None)
+                 | _ -> None) evs in
+             if not (Crashfiles.files_ok tr) then add (if optout then "model:files-discipline-sync-opted-out" else "model:files-discipline")
+         | None -> ());
+        if opened = "panic" then add (if partialwb then "spec:open-panic-nosync-partial-writeback" else "spec:open-panic")
         else if opened <> "ok" then begin
-          if model = None && nsynced = 0 then add "spec:first-round-unopenable" else add "spec:open-failed"
+          if model = None && nsynced = 0 then add "spec:first-round-unopenable"
+          else if nsynced > 0 && getb "mixed" then add (sfx "spec:lost-synced-round")
+          else add (if partialwb then "spec:open-failed-nosync-partial-writeback" else "spec:open-failed")
         end else begin
-          if prefix < 0 then add "spec:not-a-prefix"
-          else if prefix < nsynced then add "spec:lost-synced-round"
+          if prefix < 0 then add (if partialwb then "spec:not-a-prefix-nosync-partial-writeback" else "spec:not-a-prefix")
+          else if prefix < nsynced then add (sfx "spec:lost-synced-round")
         end;
         let nontriv = if nsynced > 0 then 1 else 0 in
         if !kinds = [] then Printf.printf "CASE %d seed=%s AGREE steps=1 nontrivial=%d\n" !cur_id !cur_seed nontriv
